@@ -1093,7 +1093,10 @@ static void process_volume(struct context_data *ctx, int chn, int act)
 	xc->macro.finalvol = finalvol;
 #endif
 
-	if (chn < m->mod.chn) {
+	/* Background (NNA) voices play on virtual channels >= num_tracks:
+	 * they belong to the music or to the effects mixer like their root. */
+	if (chn < m->mod.chn || (chn >= p->virt.num_tracks &&
+	    libxmp_virt_getroot(ctx, chn) < m->mod.chn)) {
 		finalvol = finalvol * p->master_vol / 100;
 	} else {
 		finalvol = finalvol * p->smix_vol / 100;
